@@ -5,18 +5,24 @@ WorkerTerminatedError has no effect and the server has to kill the backend.  On 
 then joins the local frontend thread for `timeout` (= 0) seconds and, if that thread has not finished yet,
 "forces" by os.kill(os.getpid(), SIGTERM) - i.e. it sends SIGTERM to the user's own process.
 
-The scenario runs in a subprocess (this script with the argument 'child'); the parent looks at the return
-code: -15 (killed by SIGTERM) instead of a normal exit means the defect showed.  With timeout=0 the first
-call usually reports False (the backend has been signalled but is not dead yet), so - as a caller who wants the
-worker gone would - terminate(timeout=0, force=True) is simply called again until it reports True (at most
-200 calls, no pause).  One of these calls finds the backend dead while the local frontend thread is still
-finishing, and kills the caller.
+The scenario runs in a subprocess (this script with the arguments 'child <ip> <port>'); the server is owned
+by the outer process so that nothing is left behind.  The outer process looks at the return code of the
+subprocess: -15 (killed by SIGTERM) instead of a normal exit means the defect showed.
+
+With timeout=0 the first call usually reports False (the backend has been signalled but is not dead yet),
+so - as a caller who wants the worker gone would - terminate(timeout=0, force=True) is simply called again
+until it reports True (at most 200 calls, no pause).  The call that finds the backend dead races with the
+local frontend thread which is just noticing the closed connection; if that thread is still alive the caller
+is killed.  The race is won/lost about every second time on this machine, so up to 4 fresh subprocesses are
+tried.
 """
 import os
 import signal
 import subprocess
 import sys
 import time
+
+ATTEMPTS = 4
 
 
 def stubborn_loop():
@@ -27,51 +33,85 @@ def stubborn_loop():
             pass
 
 
-def child_main():
+def child_main(addr):
     from pyworkers.remote import RemoteWorker
-    from pyworkers.remote_server import spawn_server
-    srv = spawn_server(('127.0.0.1', 0))
-    print(f'SERVER_PID {srv.pid}', flush=True)
-    w = RemoteWorker(stubborn_loop, host=srv.addr)
+    w = RemoteWorker(stubborn_loop, host=addr)
     print(f'WORKER_PID {w.pid}', flush=True)
     time.sleep(0.5)
-    for i in range(200):
+    results = []
+    for _ in range(200):
         r = w.terminate(timeout=0, force=True)
-        print(f'TERMINATE_RETURNED {i} {r}', flush=True)
+        results.append(r)
         if r:
             break
-    srv.terminate(timeout=2, force=True)
+    print(f'TERMINATE_RETURNED {results}', flush=True)
     print('CHILD_DONE', flush=True)
     os._exit(0)
 
 
-def main():
-    env = dict(os.environ)
+def run_child(addr):
+    p = subprocess.Popen([sys.executable, os.path.abspath(__file__), 'child', addr[0], str(addr[1])],
+                         stdout=subprocess.PIPE, stderr=subprocess.DEVNULL)
     try:
-        p = subprocess.run([sys.executable, os.path.abspath(__file__), 'child'], env=env, timeout=30,
-                           stdout=subprocess.PIPE, stderr=subprocess.DEVNULL, text=True)
-        rc, out = p.returncode, p.stdout
-    except subprocess.TimeoutExpired as e:
-        rc, out = 'timeout', (e.stdout or b'')
-        if isinstance(out, bytes):
-            out = out.decode(errors='replace')
-    print(out, file=sys.stderr)
+        rc = p.wait(timeout=8)
+    except subprocess.TimeoutExpired:
+        p.kill()
+        p.wait()
+        rc = 'timeout'
+    # read what is there without waiting for EOF (a grandchild could hold the pipe open)
+    os.set_blocking(p.stdout.fileno(), False)
+    try:
+        out = (p.stdout.read() or b'').decode(errors='replace')
+    except OSError:
+        out = ''
+    p.stdout.close()
     for line in out.splitlines():
-        if line.startswith(('SERVER_PID', 'WORKER_PID')):
+        if line.startswith('WORKER_PID'):
             try:
                 os.kill(int(line.split()[1]), signal.SIGKILL)
             except (OSError, ValueError):
                 pass
-    returned = [l for l in out.splitlines() if l.startswith('TERMINATE_RETURNED')]
-    if rc == -signal.SIGTERM and 'CHILD_DONE' not in out:
-        print(f'REPRODUCED: the process calling RemoteWorker.terminate(timeout=0, force=True) was killed by SIGTERM (returncode {rc}) during call #{len(returned) + 1}; {len(returned)} earlier call(s) returned False')
-        sys.exit(1)
-    print(f'NOT REPRODUCED (returncode {rc}, {returned})')
-    sys.exit(0)
+    return rc, out
+
+
+def main():
+    from pyworkers.remote_server import spawn_server
+    srv = spawn_server(('127.0.0.1', 0))
+    hit = None
+    log = []
+    try:
+        assert srv.is_alive(), srv.error
+        for attempt in range(ATTEMPTS):
+            rc, out = run_child(srv.addr)
+            returned = [l for l in out.splitlines() if l.startswith('TERMINATE_RETURNED')]
+            log.append((rc, returned))
+            print(f'attempt {attempt}: returncode {rc}, output {out.split()}', file=sys.stderr)
+            if rc == -signal.SIGTERM and 'CHILD_DONE' not in out:
+                hit = attempt
+                break
+    finally:
+        pid = srv.pid
+        try:
+            srv.terminate(timeout=2, force=True)
+        except Exception:
+            pass
+        try:
+            if srv.is_alive():
+                os.kill(pid, signal.SIGKILL)
+        except Exception:
+            pass
+
+    if hit is not None:
+        print(f'REPRODUCED: the process calling RemoteWorker.terminate(timeout=0, force=True) was killed by SIGTERM (returncode -15) inside terminate() (attempt {hit + 1} of {ATTEMPTS})')
+        sys.stdout.flush()
+        os._exit(1)
+    print(f'NOT REPRODUCED ({log})')
+    sys.stdout.flush()
+    os._exit(0)
 
 
 if __name__ == '__main__':
     if len(sys.argv) > 1 and sys.argv[1] == 'child':
-        child_main()
+        child_main((sys.argv[2], int(sys.argv[3])))
     else:
         main()
